@@ -9,7 +9,7 @@ EXTENDS Wire, Json, IOUtils
 
 Rec == ndJsonDeserialize(IOEnv.TRACE)
 
-Kinds == {"stream", "feed", "decode", "encode", "cmdof", "end"}
+Kinds == {"stream", "feed", "decode", "encode", "cmdof", "sfrag", "end"}
 InitSt(e) == [S |-> <<>>, total |-> 0, fed |-> 0, ix |-> 1, frames |-> 0]
 
 Ok(s)      == [ok |-> TRUE, st |-> s, why |-> "", dev |-> "", site |-> ""]
@@ -38,6 +38,11 @@ Apply(s, e) ==
       [] e.ev = "encode" ->
             IF EncodeOk([cmd |-> e.cmd, sid |-> e.sid, len |-> e.len], e.ok, e.out, e.trail, e.payeq)
             THEN Ok(s) ELSE No(s, "encoder output is not the frame asked for (or lies about its length)")
+      \* the decoder as the session drives it: whatever the fragmentation, the frames the session dispatched are the
+      \* whole-stream parse (observed through the answers to the keep-alive requests in the stream, in order)
+      [] e.ev = "sfrag" ->
+            IF e.got = e.sids THEN Ok(s)
+            ELSE No(s, "the session dispatched a different frame sequence than the whole-stream parse for this fragmentation (frames lost, duplicated or reordered between reads)")
       [] e.ev = "cmdof" ->
             IF e.c = CmdOf(e.b) THEN Ok(s) ELSE No(s, "command byte conversion")
       [] e.ev = "end" ->
@@ -47,7 +52,7 @@ Apply(s, e) ==
       [] OTHER -> No(s, "unknown event")
 
 \* a scenario is non-trivial once the reference has judged a decoded frame, an encode or a conversion
-NonTrivial(e, r) == r.ok /\ ((e.ev = "decode" /\ e.some) \/ e.ev = "encode" \/ e.ev = "cmdof")
+NonTrivial(e, r) == r.ok /\ ((e.ev = "decode" /\ e.some) \/ e.ev = "encode" \/ e.ev = "cmdof" \/ e.ev = "sfrag")
 
 VARIABLES l, st, bad, devs, skip, scn, cnt, nt
 TK == INSTANCE TraceKit
